@@ -151,3 +151,11 @@ claim('C15', 'other',
       'injective; role slices use non-negative offsets. Renumbering independence of the CGR string is NOT decided.',
       'trusts: variable naming in compose (self/other); undecided parts of C01',
       'DESIGN.md 4/C15')
+claim('C20', 'other',
+      'literal code-book inversion, polarity agreement of the two conversion functions, getter/setter attribute-set comparison '
+      '(source only; RDKit is not executed)',
+      'decides: bond type maps are mutually inverse on {1,2,3,4,8}; import and export agree on CCW<->True and Z<->True and both '
+      'translate signs through RDKit\'s reported neighbour order / stereo atoms; the same atom attributes travel in both '
+      'directions; the sign-translation tables are consistent. Agreement with RDKit\'s own semantics is NOT decided.',
+      'trusts: RDKit API names as written in utils/rdkit.py',
+      'DESIGN.md 4/C20')
